@@ -125,7 +125,7 @@ func genVideoNoise(r *engine.Rand, sc *engine.Scenario, total uint64, n int, ext
 		case k < 5:
 			ev.A, ev.V = engine.Pick(r, []uint16{0xff4a, 0xff4b}), r.Byte()
 		case k < 6:
-			ev.A, ev.V = engine.Pick(r, []uint16{0xff47, 0xff48, 0xff49}), r.Byte()
+			ev.A, ev.V = engine.Pick(r, []uint16{0xff47, 0xff48, 0xff49, 0xff44, 0xff44}), r.Byte() // palettes; stores to read-only LY
 		case k < 8 || len(extra) == 0:
 			ev.A, ev.V, ev.S = 0xff40, r.Byte(), "keep" // bit 7 is filled in from the schedule
 		default:
